@@ -246,8 +246,12 @@ CreateResult(hs, dk, R, F, nodh, dr, P) ==
          snap  |-> dk]
       anyfail == \E p \in vfiles : seal[p].failed
       abort   == \E p \in vfiles : seal[p].abort
+      \* nested histories the latest generation references whose ascmhl folder has vanished (exit 30)
+      lost    == IF Len(rootgens) = 0 THEN {}
+                 ELSE {r.h : r \in {x \in rootgens[Len(rootgens)].refs : Len(GensOf(hs, x.h)) = 0 \/ ~IsDir(dk, x.h)}}
   IN [gens     |-> TLCEval([h \in W |-> gen(h)]),
-      exit     |-> IF abort THEN 1 ELSE IF anyfail THEN 11 ELSE IF notfound # {} THEN 10 ELSE 0,
+      exit     |-> IF abort THEN 1 ELSE IF anyfail THEN 11 ELSE IF notfound # {} THEN 10
+                   ELSE IF lost # {} THEN 30 ELSE 0,
       missing  |-> notfound,
       mismatch |-> {p \in vfiles : seal[p].failed},
       renamed  |-> matches,
@@ -461,20 +465,24 @@ P_C02_SingleFiles(pre, post, dk, op, ob) ==
 \* ---- C03 -------------------------------------------------------------------------------
 \* "unchanged since it was sealed": some folder-mode create that exited 0 at root S above (or
 \* at) the command root saw exactly the same non-ignored tree below the command root
-Unchanged(dk, sealed, R, ign) ==
+Unchanged(pre, dk, sealed, R, ign) ==
   \E S \in DOMAIN sealed : BelowEq(S, R) /\
-     LET sd == sealed[S]
+     LET sd == sealed[S].disk
      IN /\ {p \in DOMAIN sd : Below(R, p) /\ p \notin ign} = NonIgn(dk, R, ign)
         /\ \A p \in NonIgn(dk, R, ign) : sd[p] = dk[p]
+        \* ... and no history that existed then has been removed since
+        /\ \A h \in sealed[S].hroots : BelowEq(R, h) => Len(GensOf(pre, h)) > 0
 \* ghost: sealed[S] = the tree as it was when a folder-mode create at S last exited 0, dropped as
 \* soon as any later run records something in a history above, at or below S
-SealedNext(sealed, dk, W, op, exit) ==
+SealedNext(sealed, dk, W, op, exit, post) ==
   LET keep == {S \in DOMAIN sealed : \A h \in W : ~BelowEq(S, h) /\ ~BelowEq(h, S)}
+      \* a seal remembers the tree and the histories that existed below its root
+      seal == [disk |-> dk, hroots |-> {h \in HRoots(post) : BelowEq(op.R, h)}]
   IN  IF op.op = "create" /\ exit = 0
-      THEN [S \in keep \cup {op.R} |-> IF S = op.R THEN dk ELSE sealed[S]]
+      THEN [S \in keep \cup {op.R} |-> IF S = op.R THEN seal ELSE sealed[S]]
       ELSE [S \in keep |-> sealed[S]]
 P_C03_NoFalseAlarm(pre, dk, sealed, op, ob, ign) ==
-  (op.op \in {"create", "verify", "diff"} /\ Len(GensOf(pre, op.R)) > 0 /\ Unchanged(dk, sealed, op.R, ign))
+  (op.op \in {"create", "verify", "diff"} /\ Len(GensOf(pre, op.R)) > 0 /\ Unchanged(pre, dk, sealed, op.R, ign))
     => ob.exit = 0
 \* what the histories in scope say about a path: the content its first generation recorded
 FirstContent(pre, dk, R, p) ==
@@ -546,7 +554,7 @@ P_C04_UnalteredOk(pre, dk, op, ob) ==
   (op.op \in {"create", "createsf"} /\
      \A p \in DOMAIN dk : (dk[p] # "DIR" /\ Below(op.R, p)) =>
         LET o == FirstContent(pre, dk, op.R, p) IN o.f = "none" \/ o.c = dk[p])
-    => (~ob.internal /\ ob.exit \in {0, 10})
+    => (~ob.internal /\ ob.exit \in {0, 10, 30})
 
 \* ---- C06 (on abstract generations; byte-level clauses are added by the trace spec) ------
 P_C06_AppendOnly(pre, post) ==
